@@ -248,6 +248,12 @@ func (e *Evaluator) step(vals map[ssa.Value]Val, v ssa.Value, pred *ssa.BasicBlo
 		a, b := e.get(vals, x.X), e.get(vals, x.Y)
 		return binop(x.Op, a, b, x.X.Type(), x.Type())
 	case *ssa.UnOp:
+		if x.Op == token.MUL {
+			// package-level error variable (errFoo = errors.New(...)): a definite error
+			if g, ok := x.X.(*ssa.Global); ok && isErrIface(g.Type().(*types.Pointer).Elem()) {
+				return Val{K: Err}
+			}
+		}
 		a := e.get(vals, x.X)
 		if a.K != Const {
 			return Val{}
